@@ -195,7 +195,7 @@ def check_release(case, rec):
                     return Mismatch("grad_lost_on_view_op", f"h{h}.grad did not persist across a view-only operation")
                 if g0b is not None and x.base is None:
                     gv = v.grad
-                    if gv is None or not np.array_equal(gv, g1):
+                    if gv is None or not np.array_equal(gv, g1, equal_nan=True):
                         return Mismatch("view_grad_missing", f"a fresh view of h{h} does not report the view of h{h}.grad")
                 del v
             elif act == "use":
